@@ -336,7 +336,7 @@ class Runner(object):
         env['PATH'] = shim + ':' + env.get('PATH', '')
         cmd = self.cbmc_cmd(ob, gb, False)
         res.cmd = ' '.join(cmd).replace(wdir + '/', '')
-        tmo = ob.timeout.get(self.tier, 600)
+        tmo = ob.timeout.get(self.tier, ob.timeout.get('thorough', 600))
         rc, out, errt, wall, rss, to = sh(cmd + ['--verbosity', '8'], timeout=tmo, env=env, mem_kb=MEM_KB * (2 if getattr(ob, 'weight', 1) >= 4 else 1), cwd=wdir)
         res.rss_kb = rss
         if to:
